@@ -7,7 +7,15 @@ Tie: the finite product  container kind x iterating construct x mutating operati
 module/def  is rendered twice from one abstract description - as Starlark source run on the real evaluator (harness bin
 `eval`: the program, then on the SAME module/evaluator: read the content, attempt the mutation, read the content) and as
 a Gallina program run by vm_compute on both interpreters of Lock/Bc.v (Lock/Cases.v) - and compared with the
-specification computed here (the loop outcome, content intact, later mutation succeeds with the reference result)."""
+specification computed here (the loop outcome, content intact, later mutation succeeds with the reference result).
+The way a def is left is a factor of its own ("def shape"): the bytecode compiler has one return path per shape of the def
+and of the returned expression (InstrReturn / InstrReturnConst / InstrReturnCheckType when a return type is declared / the
+implicit return at the end of the body) and the evaluator one call path per shape of the call site, so the exits
+`return`, `return` with a failing return-type check and every other exit are crossed with: declared return type, annotated
+parameters, kind of returned expression (constant, None, nothing, a local, an expression reading the iterated container, a
+fresh list, a native iteration of the container), explicit/implicit return at the end of the def, position of the `return`
+in the loop body, and the call path (direct, through a variable, lambda-wrapped, named / *args, nested def, native callback,
+frozen module + load())."""
 import itertools
 import json
 import os
@@ -27,7 +35,11 @@ TRUSTED = ["tools/props/C12.py: the two renderers of one abstract program (Starl
            "harness bin eval (`then` sources evaluated on the same Evaluator and Module after a failure)"]
 ASSUMPTIONS = ["the static empty array (VALUE_EMPTY_ARRAY) is exempt from counting in the code; the model counts uniformly because a list "
                "backed by it is empty and its iteration ends before any user code runs (empty containers are part of the corpus)",
-               "`return <expr>` evaluates <expr> after the InstrIterStop sequence; the model's return carries no expression",
+               "`return <expr>` evaluates <expr> after the InstrIterStop sequence; the model's return carries no expression (the tie "
+               "returns constants, locals, expressions reading the iterated container and native iterations of it, none of which mutates)",
+               "a return-type check that fails (InstrReturnCheckType) is an error raised after the frame's loops have been stopped: signal "
+               "RetErr of Lock/Bc.v; parameter annotations and the call path are not in the model (one SCall per call, one more for a "
+               "lambda wrapper): those factors are covered by the tie against the specification only",
                "Starlark has no exception handling: a mutation attempt during iteration can only be observed as an error that leaves "
                "the loop and is caught by the host, so 'during' observations coincide with the error exit",
                "the tie is exhaustive over the stated finite product (thorough tier) or a pairwise-covering sample of it (quick tier); "
@@ -77,6 +89,107 @@ BUILTIN_COQ = {"sorted-key": "BSorted", "min-key": "BMin", "max-key": "BMax", "m
                "set": "BSetOf", "extend": "BExtend", "set-update": "BUpdate", "dict-update": "BUpdate", "dict": "BDictOf"}
 
 
+# ------------------------------------------------------------------------------------------------
+# "def shape": how the def that contains the loop is declared, left and called (only for ctx == "def")
+
+RTYPES = ["", "int", "None", "list[int]", "typing.Any"]
+# (declared return type, kind of returned expression, explicit return statement at the end of the def)
+RET = [("", "const", 0), ("", "const", 1), ("", "none", 0), ("", "bare", 0), ("", "bare", 1), ("", "local", 0), ("", "expr", 1),
+       ("", "list", 0), ("", "listx", 0),
+       ("int", "const", 1), ("int", "local", 1), ("int", "expr", 1),
+       ("None", "none", 0), ("None", "bare", 0), ("None", "bare", 1), ("None", "none", 1),
+       ("list[int]", "list", 1), ("list[int]", "listx", 1),
+       ("typing.Any", "const", 0), ("typing.Any", "bare", 1), ("typing.Any", "local", 0), ("typing.Any", "expr", 0), ("typing.Any", "listx", 1)]
+# a return whose value does not have the declared type (error raised by InstrReturnCheckType)
+RET_BAD = [("int", "bad", 1), ("None", "bad", 0), ("None", "bad", 1), ("list[int]", "bad", 1), ("list[int]", "badelem", 1)]
+# exits other than return: what the def does after the loop (tail = 0: falls off the end, the implicit return)
+RET_TAIL = [("", "const", 0), ("", "const", 1), ("", "local", 1), ("", "expr", 1), ("int", "const", 1), ("int", "expr", 1),
+            ("None", "none", 0), ("None", "bare", 1), ("list[int]", "list", 1), ("list[int]", "listx", 1),
+            ("typing.Any", "const", 0), ("typing.Any", "const", 1)]
+RPOS = ["if", "direct", "else", "after-compr", "nested-if"]
+CALLS = ["direct", "var", "lambda", "named", "star", "nested-def", "native-cb", "frozen"]
+CALLS_TAIL = ["direct", "lambda", "named", "frozen"]
+PTYPE = {"list": "list[int]", "dict": "dict[int, int]", "set": "set[int]"}
+SHAPE_OPS = {"list": ["append", "setitem"], "dict": ["setitem"], "set": ["add"]}     # (every operation is in the base product)
+SHAPE_DEFAULT = {"rtype": "", "rval": "const", "tail": 0, "rpos": "if", "ptype": 0, "call": "direct"}
+
+
+def shape_blocks():
+    """The def-shape part of the product as Cartesian blocks: name -> list of (factor name, values); a factor whose name is a
+    tuple sets several fields of the description at once (values that only make sense together)."""
+    kindop = [(k, o) for k in ("list", "dict", "set") for o in SHAPE_OPS[k]]
+    cev = []
+    for construct in LOOPS:
+        for ex in EXITS[construct]:
+            if ex.startswith("return"):
+                continue
+            for via in (["inline", "callee"] if (construct in ("for", "nested-for") and ex in ("fail", "mutate")) else ["inline"]):
+                cev.append((construct, ex, via))
+    return {
+        "return": [(("kind", "op"), kindop), ("construct", ["for", "nested-for"]), ("exit", ["return"]), ("via", ["inline"]), ("ctx", ["def"]),
+                   ("depth", [1, 2, 3]), ("alias", [0, 1]), (("rtype", "rval", "tail"), RET), ("rpos", RPOS), ("ptype", [0, 1]), ("call", CALLS)],
+        "return-badtype": [(("kind", "op"), kindop), ("construct", ["for", "nested-for"]), ("exit", ["return-badtype"]), ("via", ["inline"]),
+                           ("ctx", ["def"]), ("depth", [1, 2, 3]), ("alias", [1]), (("rtype", "rval", "tail"), RET_BAD), ("rpos", RPOS),
+                           ("ptype", [0, 1]), ("call", CALLS)],
+        "other-exits": [(("kind", "op"), kindop), (("construct", "exit", "via"), cev), ("ctx", ["def"]), ("depth", [1, 2, 3]), ("alias", [0]),
+                        (("rtype", "rval", "tail"), RET_TAIL), ("rpos", ["if"]), ("ptype", [0, 1]), ("call", CALLS_TAIL)],
+    }
+
+
+def block_row(factors, choice):
+    c = {}
+    for (name, values), j in zip(factors, choice):
+        if isinstance(name, tuple):
+            c.update(zip(name, values[j]))
+        else:
+            c[name] = values[j]
+    return c
+
+
+def block_size(factors):
+    n = 1
+    for _, values in factors:
+        n *= len(values)
+    return n
+
+
+def block_cases(factors):
+    return [block_row(factors, ch) for ch in itertools.product(*[range(len(v)) for _, v in factors])]
+
+
+def block_covering(rng, factors, tries=24):
+    """Pairwise covering array of a Cartesian block, greedy: each row is the best of `tries` random rows that contain a
+    still uncovered pair.  -> (rows as descriptions, number of pairs)."""
+    need = set()
+    for a, b in itertools.combinations(range(len(factors)), 2):
+        for x in range(len(factors[a][1])):
+            for y in range(len(factors[b][1])):
+                need.add((a, x, b, y))
+    total = len(need)
+    pending = sorted(need)
+    rng.shuffle(pending)
+    rows = []
+    while need:
+        while pending[-1] not in need:
+            pending.pop()
+        a, x, b, y = pending[-1]
+        best, bestn = None, -1
+        for _ in range(tries):
+            ch = [rng.randrange(len(v)) for _, v in factors]
+            ch[a], ch[b] = x, y
+            n = sum(1 for p, q in itertools.combinations(range(len(ch)), 2) if (p, ch[p], q, ch[q]) in need)
+            if n > bestn:
+                best, bestn = ch, n
+        for p, q in itertools.combinations(range(len(best)), 2):
+            need.discard((p, best[p], q, best[q]))
+        rows.append(block_row(factors, best))
+    return rows, total
+
+
+def block_random(rng, factors, n):
+    return [block_row(factors, [rng.randrange(len(v)) for _, v in factors]) for _ in range(n)]
+
+
 def construct_class(c):
     if c in ("for", "nested-for", "dict-compr"):
         return c
@@ -85,12 +198,28 @@ def construct_class(c):
     return "builtin:" + c
 
 
-def exit_class(e):
-    return "error" if e in ("fail", "mutate") else e
+def exit_class(e, c=None):
+    if e in ("fail", "mutate"):
+        return "error"
+    if e == "return" and c is not None and c.get("rtype"):
+        return "return-typed"           # InstrReturnCheckType, not InstrReturn / InstrReturnConst
+    return e
 
 
 def product():
-    """The whole finite product, as abstract case descriptions."""
+    """The whole finite product, as abstract case descriptions: the base product (default def shape) and the def-shape blocks."""
+    out = base_product()
+    for factors in shape_blocks().values():
+        out += block_cases(factors)
+    return out
+
+
+def product_size():
+    return len(base_product()) + sum(block_size(f) for f in shape_blocks().values())
+
+
+def base_product():
+    """kind x construct x exit x inline/callee x module/def x depth x op x alias, the def (if any) in its plainest shape."""
     out = []
     for kind in ("list", "dict", "set"):
         for construct in LOOPS + CB_BUILTINS + FREE_BUILTINS:
@@ -124,9 +253,18 @@ def ind(lines, n=1):
     return ["    " * n + l for l in lines]
 
 
+def ret_value(rval, var, tail=False):
+    """Text of the returned expression; `var` is the variable of the innermost loop (a local of the def)."""
+    return {"const": "7", "none": "None", "bare": "", "local": "w" if tail else var, "expr": "len(x)" if tail else "len(x) + %s" % var,
+            "list": "[len(x)]" if tail else "[%s]" % var, "listx": "list(x)", "bad": '"s"', "badelem": '["s"]'}[rval]
+
+
 def render(c):
-    """-> (src, then[3], coq_init, coq_prog, coq_op)"""
+    """-> (src, then[3], coq_init, coq_prog, coq_op, mods)"""
     kind, construct, ex, via = c["kind"], c["construct"], c["exit"], c.get("via", "inline")
+    rtype, rval, tail = c.get("rtype", ""), c.get("rval", "const"), c.get("tail", 0)
+    rpos, ptype, callp = c.get("rpos", "if"), c.get("ptype", 0), c.get("call", "direct")
+    ret_coq = "SReturn" if not rtype else ("SReturnT false" if ex == "return-badtype" else "SReturnT true")
     _, op_star, op_coq = op_entry(c)
     recv = "z" if c["alias"] else "x"
     empty = bool(c.get("empty"))
@@ -134,10 +272,10 @@ def render(c):
     act_star = {"fail": 'fail("boom")', "mutate": op_star.replace("R", "r")}.get(ex)          # inside g(e, r)
     act_inline = {"fail": 'fail("boom")', "mutate": op_star.replace("R", recv)}.get(ex)     # inside the loop body
     act_coq = {"fail": "SFail", "mutate": "SMutate %s 0" % op_coq}.get(ex)
-    pre = ["x = %s" % (LIT_EMPTY if empty else LIT)[kind], "z = x", "y = [10, 20]"]
-    pre += ["def g0(e, r):", "    return e"]
+    data = ["x = %s" % (LIT_EMPTY if empty else LIT)[kind], "z = x", "y = [10, 20]"]
+    defs = ["def g0(e, r):", "    return e"]
     if act_star:
-        pre += ["def g(e, r):", "    if e == 2:", "        " + act_star, "    return e"]
+        defs += ["def g(e, r):", "    if e == 2:", "        " + act_star, "    return e"]
     g_coq = "(SCall (blk [SIf 1 (blk [%s]) BNil]))" % act_coq if act_coq else "(SCall BNil)"
     gname = "g" if act_star else "g0"
 
@@ -149,8 +287,18 @@ def render(c):
             return ["if %s == 1:" % var, "    continue", "pass"], ["SIf 0 (blk [SContinue]) BNil"]
         if ex == "break":
             return ["if %s == 2:" % var, "    break"], ["SIf 1 (blk [SBreak]) BNil"]
-        if ex == "return":
-            return ["if %s == 2:" % var, "    return 7"], ["SIf 1 (blk [SReturn]) BNil"]
+        if ex in ("return", "return-badtype"):
+            rs = ("return " + ret_value(rval, var)).rstrip()
+            if rpos == "direct":            # leaves at the first element
+                return [rs], [ret_coq]
+            if rpos == "else":
+                return ["if %s == 1:" % var, "    pass", "else:", "    " + rs], ["SIf 0 BNil (blk [%s])" % ret_coq]
+            if rpos == "after-compr":       # a comprehension over the same container has come and gone in the body
+                return ["_q = [j for j in x]", "if %s == 2:" % var, "    " + rs], ["SFor 0 BNil", "SIf 1 (blk [%s]) BNil" % ret_coq]
+            if rpos == "nested-if":
+                return (["if %s != 1:" % var, "    if %s == 2:" % var, "        " + rs],
+                        ["SIf 1 (blk [SIf 1 (blk [%s]) BNil]) BNil" % ret_coq])
+            return ["if %s == 2:" % var, "    " + rs], ["SIf 1 (blk [%s]) BNil" % ret_coq]
         if via == "callee":
             return ["g(%s, %s)" % (var, recv)], [g_coq]
         return ["if %s == 2:" % var, "    " + act_inline], ["SIf 1 (blk [%s]) BNil" % act_coq]
@@ -205,17 +353,38 @@ def render(c):
     for _ in range(c["depth"] - 1):
         lines = ["for a in y:"] + ind(lines)
         coq = ["SFor 1 %s" % splice(coq)]
+    mods = []
     if c["ctx"] == "def":
-        src = pre + ["def f(x, z, y):"] + ind(lines) + ["f(x, z, y)"]
+        params = "x: %s, z: typing.Any, y: list[int]" % PTYPE[kind] if ptype else "x, z, y"
+        head = "def f(%s)%s:" % (params, " -> " + rtype if rtype else "")
+        fbody = (["w = 7"] if rval == "local" else []) + lines
+        if tail:        # an explicit return statement ends the def (of the declared type also when the return in the loop is not)
+            tval = {"int": "const", "None": "none", "list[int]": "list"}[rtype] if rval in ("bad", "badelem") else rval
+            fbody.append(("return " + ret_value(tval, None, tail=True)).rstrip())
+        fdef = [head] + ind(fbody)
+        args = "x, z, y"
+        if callp == "nested-def":
+            fdef = ["def outer(x, z, y):"] + ind(fdef + ["return f(x, z, y)"])
+        callee = {"nested-def": "outer"}.get(callp, "f")
+        stmt = {"direct": "%s(%s)" % (callee, args), "nested-def": "%s(%s)" % (callee, args), "frozen": "%s(%s)" % (callee, args),
+                "var": "h = f\nh(%s)" % args, "lambda": "(lambda: f(%s))()" % args, "named": "f(x=x, z=z, y=y)",
+                "star": "f(*[x, z, y])", "native-cb": "_m = map(lambda _e: f(%s), [0])" % args}[callp]
+        if callp == "frozen":
+            mods = [{"name": "lib", "src": "\n".join(defs + fdef) + "\n"}]
+            src = ['load("lib", "f")'] + data + [stmt]
+        else:
+            src = data + defs + fdef + [stmt]
         prog = blk(["SCall %s" % splice(coq)])
+        if callp in ("lambda", "nested-def"):     # one more frame between the module and f
+            prog = blk(["SCall %s" % prog])
     else:
-        src = pre + lines
+        src = data + defs + lines
         prog = splice(coq)
     show = "emit(list(x))" if kind == "set" else "emit(x)"
     then = [show, op_star.replace("R", recv), show, "y.append(0)"]
     init = {"list": "VList [%s]", "dict": "VDict [%s]", "set": "VSet [%s]"}[kind] % (
         "" if empty else "; ".join("(%d, %d)" % e if kind == "dict" else str(e) for e in INIT[kind]))
-    return "\n".join(src) + "\n", then, "[%s; VList [10; 20]]" % init, prog, op_coq
+    return "\n".join(src) + "\n", then, "[%s; VList [10; 20]]" % init, prog, op_coq, mods
 
 
 # ------------------------------------------------------------------------------------------------
@@ -304,7 +473,7 @@ def spec(c):
     """What the property demands: (outcome of the program, content after it, outcome of the later mutation, content,
     outcome of a later mutation of the list iterated by the enclosing loops)."""
     init = [] if c.get("empty") else INIT[c["kind"]]
-    r0 = {"fail": 2, "mutate": 1}.get(c["exit"], 0)
+    r0 = {"fail": 2, "mutate": 1, "return-badtype": 11}.get(c["exit"], 0)
     if c.get("empty"):
         r0 = 0          # no element: no body runs
     st, v = ref_apply(c["kind"], c["op"], init)
@@ -332,6 +501,8 @@ def err_code(out):
         return 5
     if re.search(r"empty", msg):
         return 6
+    if "does not match the type annotation" in msg and "for return type" in msg:
+        return 11
     return "other:" + msg[:120]
 
 
@@ -350,7 +521,7 @@ def impl_obs(r):
 
 def run_model(ctx, triples):
     """triples: list of (init, prog, op) texts -> list of (faithful obs+count, repaired obs+count) or None."""
-    nshard = min(sv.NPROC, max(1, len(triples)))
+    nshard = min(sv.NPROC, max(1, (len(triples) + 39) // 40))     # coqc start-up dominates small batches
     files = []
     for s in range(nshard):
         part = triples[s::nshard]
@@ -382,10 +553,10 @@ def run_model(ctx, triples):
 def classify(c, impl, sp):
     cc, kc = construct_class(c["construct"]), c["kind"]
     if impl[0] == sp[0] and impl[1] == sp[1] and impl[2] == 1 and sp[2] == 0 and impl[3] == impl[1]:
-        return "C12/lock-retained/exit=%s/container=%s/construct=%s" % (exit_class(c["exit"]), kc, cc)
+        return "C12/lock-retained/exit=%s/container=%s/construct=%s" % (exit_class(c["exit"], c), kc, cc)
     if impl[:4] == sp[:4] and impl[4] == 1:
         # the container under test was released (or never locked by a bytecode loop) but the list iterated by the enclosing for statements was not
-        return "C12/lock-retained/exit=%s/container=list/construct=for" % exit_class(c["exit"])
+        return "C12/lock-retained/exit=%s/container=list/construct=for" % exit_class(c["exit"], c)
     if sp[0] == 1 and impl[0] == 0:
         return "C12/mutation-succeeded-during-iteration/container=%s/construct=%s/op=%s" % (kc, cc, c["op"])
     if impl[1] != sp[1]:
@@ -395,37 +566,75 @@ def classify(c, impl, sp):
     return "C12/later-mutation/container=%s/op=%s" % (kc, c["op"])
 
 
-def evaluate(ctx, cases):
+def shape_text(c):
+    if c["ctx"] != "def":
+        return ""
+    g = lambda k: c.get(k, SHAPE_DEFAULT[k])
+    return " f(%s)%s returning %s%s at %s%s, called %s" % (
+        "annotated parameters" if g("ptype") else "plain parameters", " -> " + g("rtype") if g("rtype") else "", g("rval"),
+        " (+ explicit return at the end)" if g("tail") else "", g("rpos"), "", g("call"))
+
+
+def evaluate(ctx, cases, chunk=40000):
+    """Runs the cases on implementation and model (in chunks, to bound memory in the exhaustive tier) -> (failures, statistics)."""
+    failures, st, cache = [], None, {}
+    for k in range(0, max(1, len(cases)), chunk):
+        f1, s1 = evaluate_chunk(ctx, cases[k:k + chunk], cache)
+        failures += f1
+        if st is None:
+            st = s1
+        else:
+            for key, v in s1.items():
+                if isinstance(v, dict):
+                    for kk, vv in v.items():
+                        st[key][kk] = st[key].get(kk, 0) + vv
+                else:
+                    st[key] += v
+    st["model_programs"] = len(cache)
+    return failures, st
+
+
+def evaluate_chunk(ctx, cases, cache):
     rendered = [render(c) for c in cases]
-    hc = [{"src": r[0], "then": r[1], "opts": {}} for r in rendered]
+    hc = [dict({"src": r[0], "then": r[1], "opts": {}}, **({"mods": r[5]} if r[5] else {})) for r in rendered]
     rc, log, res = sv.run_harness_sharded(ctx, "eval", hc, timeout=900)
     ctx.log("implementation ran %d programs (rc=%s)" % (len(hc), rc))
     failures = []
     if rc != 0:
         failures.append({"key": "C12/harness-crash", "what": "eval harness exited with %s: %s" % (rc, log[-300:]), "replay": {"rc": rc}})
-    uniq, order = {}, []
+    order, mlog = [], ""
     for r in rendered:
         t = (r[2], r[3], r[4])
-        if t not in uniq:
-            uniq[t] = len(order)
+        if t not in cache:
+            cache[t] = None
             order.append(t)
-    mres, mlog = run_model(ctx, order)
-    ctx.log("Coq model ran %d distinct programs (both interpreters)" % len(order))
+    if order:
+        mres, mlog = run_model(ctx, order)
+        for t, m in zip(order, mres):
+            cache[t] = m
+        ctx.log("Coq model ran %d distinct programs (both interpreters)" % len(order))
     st = {"agree_spec": 0, "model_faithful": 0, "model_repaired": 0, "retained": 0, "during_attempts": 0, "after_attempts": 0,
-          "model_programs": len(order), "by_exit": {}, "by_construct": {}, "by_kind": {}}
+          "model_programs": len(order), "by_exit": {}, "by_construct": {}, "by_kind": {}, "by_rtype": {}, "by_call": {}, "by_rval": {},
+          "typed_return_in_loop": 0}
     for c, r, x in zip(cases, rendered, res):
         impl = impl_obs(x)
         sp = spec(c)
-        m = mres[uniq[(r[2], r[3], r[4])]]
-        rep = {"case": c, "src": r[0], "then": r[1], "coq": {"init": r[2], "prog": r[3], "op": r[4]}, "impl": impl, "spec": sp,
+        m = cache[(r[2], r[3], r[4])]
+        rep = {"case": c, "src": r[0], "then": r[1], "mods": r[5], "coq": {"init": r[2], "prog": r[3], "op": r[4]}, "impl": impl, "spec": sp,
                "model_faithful": m[0] if m else None, "model_repaired": m[2] if m else None}
         st["by_exit"][c["exit"]] = st["by_exit"].get(c["exit"], 0) + 1
         st["by_construct"][c["construct"]] = st["by_construct"].get(c["construct"], 0) + 1
         st["by_kind"][c["kind"]] = st["by_kind"].get(c["kind"], 0) + 1
+        if c["ctx"] == "def":
+            for fld, dst in (("rtype", "by_rtype"), ("call", "by_call"), ("rval", "by_rval")):
+                v = c.get(fld, SHAPE_DEFAULT[fld]) or "(none)"
+                st[dst][v] = st[dst].get(v, 0) + 1
+            if c["exit"].startswith("return") and c.get("rtype"):
+                st["typed_return_in_loop"] += 1
         if impl is None or any(isinstance(v, str) for v in (impl[0], impl[2], impl[4])) or impl[1] is None or impl[3] is None:
             rep["raw"] = x
             tag = "panic" if isinstance(x, dict) and "panic" in x else "unexpected-outcome"
-            failures.append({"key": "C12/%s/container=%s/construct=%s/exit=%s/op=%s" % (tag, c["kind"], construct_class(c["construct"]), exit_class(c["exit"]), c["op"]),
+            failures.append({"key": "C12/%s/container=%s/construct=%s/exit=%s/op=%s" % (tag, c["kind"], construct_class(c["construct"]), exit_class(c["exit"], c), c["op"]),
                              "what": "%s over a %s, exit=%s, operation %s: the program could not be observed as planned (crash, panic or an unplanned error): "
                                      "%s; specification %s" % (c["construct"], c["kind"], c["exit"], c["op"], json.dumps(x)[:300] if impl is None else impl, sp),
                              "replay": rep})
@@ -449,9 +658,9 @@ def evaluate(ctx, cases):
         key = classify(c, impl, sp)
         if "/lock-retained/" in key:
             st["retained"] += 1
-        what = ("%s: %s over a %s, exit=%s (%s, %s, nesting depth %d), operation %s through %s: implementation %s, specification %s "
+        what = ("%s: %s over a %s, exit=%s (%s, %s%s, nesting depth %d), operation %s through %s: implementation %s, specification %s "
                 "[program outcome, content after it, outcome of the later mutation, content, outcome of a later mutation of the enclosing loops' list]; Coq model as-is %s (iteration count left %s), "
-                "repaired %s" % (key, c["construct"], c["kind"], c["exit"], c.get("via"), c["ctx"], c["depth"], c["op"],
+                "repaired %s" % (key, c["construct"], c["kind"], c["exit"], c.get("via"), c["ctx"], shape_text(c), c["depth"], c["op"],
                                  "an alias" if c["alias"] else "the same name", impl, sp, m[0], m[1], m[2]))
         if not (mf or mr):
             what += " -- and the model predicts neither"
@@ -523,14 +732,29 @@ def check_dir(ctx):
 
 
 def correspond(ctx):
-    prod = product()
+    base = base_product()
+    blocks = shape_blocks()
+    nprod = len(base) + sum(block_size(f) for f in blocks.values())
     corpus = load_corpus()
+    shape_rows = {}
     if ctx.quick():
-        cases, uncovered = covering_sample(ctx, prod, 2400)
+        cases, uncovered = covering_sample(ctx, base, 2000)
+        # every def-shape block gets its own pairwise covering array: within a block the exit is fixed (return / failing typed
+        # return) or one factor among the others, so a pair of the block is a triple (exit, A, B) of the whole product
+        for name, factors in blocks.items():
+            rows, npairs = block_covering(ctx.rng, factors)
+            extra = block_random(ctx.rng, factors, {"return": 160, "return-badtype": 40, "other-exits": 100}[name])
+            shape_rows[name] = {"size": block_size(factors), "pairs": npairs, "covering_rows": len(rows), "random_rows": len(extra)}
+            cases = cases + rows + extra
         exhaustive = False
     else:
-        cases, uncovered, exhaustive = prod, 0, True
-    ctx.log("product=%d programs; running %d (+%d corpus); pairs left uncovered=%d" % (len(prod), len(cases), len(corpus), uncovered))
+        cases = list(base)
+        for name, factors in blocks.items():
+            shape_rows[name] = {"size": block_size(factors), "exhaustive": True}
+            cases += block_cases(factors)
+        uncovered, exhaustive = 0, True
+    ctx.log("product=%d programs (base %d + def-shape blocks %s); running %d (+%d corpus); pairs left uncovered=%d"
+            % (nprod, len(base), {k: v["size"] for k, v in shape_rows.items()}, len(cases), len(corpus), uncovered))
     broken, dirs = check_dir(ctx)
     failures, st = evaluate(ctx, corpus + cases)
     ctx.log("agree-with-spec=%d lock-retained=%d match-model-as-is=%d match-model-repaired=%d failures=%d"
@@ -538,16 +762,28 @@ def correspond(ctx):
     if uncovered:
         broken.append(("covering-sample", "%d factor pairs not covered" % uncovered))
     ex = render(cases[0])
+    ex2 = render(cases[-1])
     cov = {
         "evaluations": 5 * (len(cases) + len(corpus)),
         "programs": len(cases) + len(corpus),
-        "product_size": len(prod),
+        "product_size": nprod,
+        "base_product_size": len(base),
+        "def_shape_blocks": shape_rows,
+        "typed_return_in_loop_programs": st["typed_return_in_loop"],
         "distinct_nontrivial": len({json.dumps(c, sort_keys=True) for c in cases if c["exit"] != "exhaustion" or c["depth"] > 1}),
         "rule": "finite product kind{list,dict,set} x construct{for, nested for over the same value, list/dict comprehension (1st/2nd clause), "
                 "sorted/min/max(key=)/map/filter with callback, any/all/enumerate/zip/list/tuple/sorted/reversed/set/extend/update/dict} x "
                 "exit{exhaustion, continue, break, return, fail, mutation attempt} x inline/callee x module/def x nesting depth 1..3 x every "
-                "mutator of dir(value) + item/augmented assignment x same name/alias; quick = greedy pairwise-covering sample topped up at "
-                "random, thorough = exhaustive; 5 observations per program (program outcome, content, later mutation outcome, content, later mutation of the list iterated by the enclosing loops); "
+                "mutator of dir(value) + item/augmented assignment x same name/alias (def in its plainest shape), PLUS three def-shape "
+                "blocks for the loops inside a def: [return] and [return whose value fails the declared return type] x (declared return "
+                "type {none, int, None, list[int], typing.Any}, returned expression {constant, None, nothing, local, expression reading "
+                "the container, fresh list, list(container)}, explicit/implicit return at the end) x position of the return {if, "
+                "unconditional, else branch, after a comprehension over the same container, nested if} x annotated parameters x call "
+                "path {direct, variable, lambda, named, *args, nested def, native callback, frozen+load} x for/nested-for x depth 1..3 x "
+                "2 operations per kind x alias; [every other exit] x (return type, what ends the def) x parameters x call path {direct, "
+                "lambda, named, frozen+load}; quick = greedy pairwise-covering sample of the base product topped up at random + one "
+                "pairwise covering array per def-shape block (a pair inside a block is a triple with the exit) topped up at random, "
+                "thorough = exhaustive; 5 observations per program (program outcome, content, later mutation outcome, content, later mutation of the list iterated by the enclosing loops); "
                 "non-trivial = not a plain exhaustion at depth 1; distinct by description",
         "exhaustive": exhaustive,
         "traces_validated_against_impl": st["model_faithful"] if st["model_faithful"] >= st["model_repaired"] else st["model_repaired"],
@@ -558,10 +794,12 @@ def correspond(ctx):
         "mutation_attempts_during_iteration": st["during_attempts"],
         "mutation_attempts_after_iteration": st["after_attempts"],
         "model_programs": st["model_programs"],
-        "input_distribution": {"exit": st["by_exit"], "construct": st["by_construct"], "kind": st["by_kind"]},
+        "input_distribution": {"exit": st["by_exit"], "construct": st["by_construct"], "kind": st["by_kind"],
+                               "def_return_type": st["by_rtype"], "def_call_path": st["by_call"], "def_returned_expression": st["by_rval"]},
         "dir": dirs,
         "corpus": len(corpus),
-        "samples": [{"case": cases[0], "src": ex[0], "then": ex[1], "coq": ex[3]}, cases[len(cases) // 2], cases[-1]],
+        "samples": [{"case": cases[0], "src": ex[0], "then": ex[1], "coq": ex[3]}, cases[len(cases) // 2],
+                    {"case": cases[-1], "src": ex2[0], "mods": ex2[5], "then": ex2[1], "coq": ex2[3]}],
     }
     return {"coverage": cov, "failures": failures, "broken": broken}
 
@@ -585,18 +823,25 @@ META = {
     "level_text": "Full for the model, with one refuted clause carried as a finding. Coq (Properties/C12.v, closed under the global context): "
                   "every mutator of list/dict/set (methods, item and augmented assignment) is refused, store untouched, while the container's "
                   "iteration count is non-zero (any alias); for every structured program (for, nested for over the same container, "
-                  "comprehension clauses, break, continue, return through any nesting, calls, consuming builtins) compiled to the "
-                  "Iter/Continue/Break/IterStop/Return skeleton, every non-error exit leaves every count as on entry; native consumers "
-                  "release on every exit including errors. The clause 'released when an error propagates out of the loop' is REFUTED for the "
+                  "comprehension clauses, break, continue, return through any nesting - plain or, in a def with a declared return type, "
+                  "followed by the InstrReturnCheckType step (SReturnT) -, calls, consuming builtins) compiled to the "
+                  "Iter/Continue/Break/IterStop/Return skeleton, every non-error exit leaves every count as on entry; a return whose "
+                  "type check fails leaves them as on entry too (Lock/Proofs.v return_check_failure_released, not among the pinned "
+                  "statements); native consumers release on every exit including errors. The clause 'released when an error propagates out of the loop' is REFUTED for the "
                   "interpreter as the code is (run_block returns on InstrControl::Err without iter_stop; vm_compute witness) and PROVED for a "
                   "repaired interpreter that unwinds the active iterators. The tie runs the finite product (exhaustive in the thorough tier) "
                   "on the real evaluator with follow-up evaluation on the same module and compares it with both interpreters of the model and "
                   "with the specification; the refuted clause shows up as KNOWN-FINDING lines keyed by (container, construct) and disappears "
-                  "when the implementation is repaired.",
+                  "when the implementation is repaired. The way of leaving the loop is quantified over the compiler's return paths and the "
+                  "evaluator's call paths (def-shape blocks: declared return type, annotated parameters, returned expression, position of "
+                  "the return, explicit/implicit final return, 8 call paths incl. frozen module + load()): of these only 'typed return, "
+                  "check passes/fails' and 'one more frame' exist in the Coq skeleton; parameter annotations, the kind of returned "
+                  "expression and the call path are covered by the tie against the specification only.",
     "level_note": "Trusted: Coq kernel; Lock/Bc.v as abstraction of the bytecode (tree-shaped skeleton, big-step signals for jumps, iterator "
                   "slot = container); the two renderers and reference operation semantics in tools/props/C12.py; harness bin eval. Not "
                   "modelled: the static empty array exemption (unobservable; empty containers are in the corpus), `return <expr>` evaluated "
-                  "after the IterStop sequence, errors raised by report_forward_progress inside InstrContinue (same exit path as any error).",
+                  "after the IterStop sequence (the expression itself; the tie uses non-mutating expressions that read or natively iterate "
+                  "the container), parameter type checks and call paths of a def, errors raised by report_forward_progress inside InstrContinue (same exit path as any error).",
     "technique": "Coq model + invariant proof (multiset of held locks) over compiled structured programs; refutation by vm_compute witness; "
                  "exhaustive differential tie of a finite product against model and specification",
     "design_ref": "DESIGN.md section 4 C12, section 9 F4",
